@@ -44,6 +44,7 @@ def run(P: Program, R: Report, tier: str) -> None:
         "ids and parent links are renumbered through one mapping, after uniqueness was checked, without silently losing links",
         "renaming cannot read a column that an earlier rename already overwrote",
     ]
+    R.decides += ["columns are combined by dtype promotion; missing-value masks travel with their values; offered header names are the table's own; integer ids are renumbered only because of the id column"]
     R.not_decided += ["equality of imported values with the source, column combination order, bijectivity of the renumbering as values"]
     tb = P.class_named("TracksBuilder")
     build = tb.methods["build"]
